@@ -25,7 +25,7 @@ func paramTypes(p *core.Program) []*types.Named {
 		return nil
 	}
 	for _, fn := range p.RepoFuncs() {
-		if fn.Signature.Recv() != nil && namedOf(fn.Signature.Recv().Type()) == ps && requestParamIndex(fn) >= 0 && fn.Signature.Results().Len() == 2 && delegateTarget(fn) == nil && witnessCircuitType(fn) != nil {
+		if fn.Signature.Recv() != nil && namedOf(fn.Signature.Recv().Type()) == ps && requestParamIndex(fn) >= 0 && fn.Signature.Results().Len() == 2 && (delegateTarget(fn) == nil && !composesProvers(fn)) && witnessCircuitType(fn) != nil {
 			if n := namedOf(fn.Signature.Params().At(requestParamIndex(fn)).Type()); n != nil && inRepoObj(n.Obj()) {
 				out = append(out, n)
 			}
